@@ -93,3 +93,17 @@ Theorem append_varint_injective : forall v1 v2 e, v1 <= max_varint -> v2 <= max_
   append_varint [] v1 = Ok e -> append_varint [] v2 = Ok e -> v1 = v2.
 Proof. exact append_varint_injective_l. Qed.
 Print Assumptions append_varint_injective.
+
+(** length-prefixed byte strings are prefix-free as well (varint and one-byte length framings) *)
+Theorem varint_bytes_prefix_free : forall v1 v2 e1 e2 r1 r2,
+  N.of_nat (length v1) <= max_varint -> N.of_nat (length v2) <= max_varint ->
+  append_varint_bytes [] v1 = Ok e1 -> append_varint_bytes [] v2 = Ok e2 ->
+  e1 ++ r1 = e2 ++ r2 -> v1 = v2 /\ e1 = e2 /\ r1 = r2.
+Proof. exact varint_bytes_prefix_free_l. Qed.
+Print Assumptions varint_bytes_prefix_free.
+Theorem uint8_bytes_prefix_free : forall v1 v2 e1 e2 r1 r2,
+  (length v1 <= 255)%nat -> (length v2 <= 255)%nat ->
+  append_uint8_bytes [] v1 = Ok e1 -> append_uint8_bytes [] v2 = Ok e2 ->
+  e1 ++ r1 = e2 ++ r2 -> v1 = v2 /\ e1 = e2 /\ r1 = r2.
+Proof. exact uint8_bytes_prefix_free_l. Qed.
+Print Assumptions uint8_bytes_prefix_free.
